@@ -174,6 +174,10 @@ def render_expr(e, lang, sp):
         return 'like(%s, %s)' % (R(e[1]), py_str(e[2], sp.rnd))
     if t == 'split':
         return '%s.split(%s)' % (R(e[1]), py_str(e[2], sp.rnd))
+    if t == 'splitne':
+        if lang == 'py':
+            return '[t for t in %s.split(%s) if t]' % (R(e[1]), py_str(e[2], sp.rnd))
+        return '%s.split(%s).filter(t => t)' % (R(e[1]), py_str(e[2], sp.rnd))
     raise ValueError(t)
 
 
